@@ -47,6 +47,9 @@ def scenarios(tier, seed):
         add(names, deps, {}, rnd.choice(reqs), failing=rnd.choice([["a"], ["b"], ["c"], ["a", "b"], ["a", "b", "c"]]))
         if rnd.random() < 0.25:
             add(names, deps, {}, rnd.choice(reqs), files=("a", "c"), second=True)
+        # the same dependency listed twice in one task
+        if rnd.random() < 0.3:
+            add(names, {n: list(deps[n]) + list(deps[n])[:1] for n in names}, {}, rnd.choice(reqs))
     if tier != "quick":
         names4 = ["a", "b", "c", "d"]
         reqs4 = [["a"], ["d"], ["a", "b"], ["c", "d"], ["d", "a"], ["a", "b", "c", "d"], ["d", "c", "b", "a"], ["b"], ["b", "c"], ["a", "d", "a"]]
@@ -75,6 +78,10 @@ def scenarios(tier, seed):
             deps[x] = deps[x] + [rnd.choice(ns)]           # possibly a back edge or self loop
         elif r < 0.3:
             deps[rnd.choice(ns)].append("u")
+        if rnd.random() < 0.2:
+            x = rnd.choice(ns)
+            if deps[x]:
+                deps[x] = deps[x] + [rnd.choice(deps[x])]  # a dependency listed twice
         defs = {}
         if rnd.random() < 0.05:
             defs[rnd.choice(ns)] = 2
